@@ -161,7 +161,11 @@ def _srckey(i):
     return f's{i}'
 
 
-def _path(i):
+def _path(i, longname=False):
+    if longname:
+        # a base name of exactly 255 characters (the file-name limit the
+        # temp-name rule is written around)
+        return f'{DIR}/' + f'{i:05d}' + 'L' * 250
     return f'{DIR}/f{i}'
 
 
@@ -358,15 +362,16 @@ def run_case(case, repo_checks=True):
             dst = t['dst']
             pre = t.get('preexist')
             if dst in ('path', 'special'):
-                rec['fileobj'] = _path(i)
+                pth = _path(i, bool(t.get('longname')) and dst == 'path')
+                rec['fileobj'] = pth
                 if dst == 'special':
-                    fs.special.add(_path(i))
-                    fs.files[_path(i)] = bytearray()
+                    fs.special.add(pth)
+                    fs.files[pth] = bytearray()
                 elif pre is not None:
-                    fs.files[_path(i)] = bytearray(
+                    fs.files[pth] = bytearray(
                         pattern_bytes(pre, salt + 100))
-                rec['previous'] = (bytes(fs.files[_path(i)])
-                                   if _path(i) in fs.files else None)
+                rec['previous'] = (bytes(fs.files[pth])
+                                   if pth in fs.files else None)
             elif dst == 'seek':
                 rec['fileobj'] = fakefs.SeekableSink(sched, trace, faults, i)
             elif t.get('seek_attr'):
